@@ -28,6 +28,7 @@ LEVEL_TEXT = ("Exploration by generated-input search: for each match of $-rooted
               "must pass and change nothing, test with another value must raise JSONPatchTestFailure, replace must equal "
               "set-by-parts and remove must equal delete-by-parts, compared as whole documents with strict JSON equality (so "
               "an edit that lands on a look-alike member, adds an int key or touches anything else fails).")
+LEVEL_TEXT += ' The location a match reports must hold the matched node itself (identity for containers) before the three operations are judged.'
 BUDGET_S = {"quick": 60, "thorough": 500}
 RULE = ("C03's query stream over nasty-name documents; every match x {test, test-different, replace, remove}. Non-trivial = the "
         "match's parts contain a name that is integer-like, empty, non-ASCII or contains '~' or '/'; distinct by (document, "
